@@ -81,6 +81,25 @@ for fn, real, kw in contracts:
     kw.setdefault('timeout', 120)
     P.contract(fn, real, kind='R', **kw)
 
+# The property quantifies over matrices, not over configurations, but an aligned matrix type takes other code paths (detail::inv3x3<T, Q, true>,
+# the SSE kernels of func_matrix_simd.inl): the same contracts are re-enforced on extractions compiled with GLM_FORCE_INTRINSICS +
+# GLM_FORCE_DEFAULT_ALIGNED_GENTYPES at SSE2 and AVX2+FMA (seed C10_3 lives in the aligned 3x3 inverse; C03 re-enforces them at three ISA levels too)
+import copy as _copy
+for _isa, _fl in (('sse2', ['-msse2']), ('avx2fma', ['-mavx2', '-mfma'])):
+    _sb = P.build(d, 'flat', defines=['GLM_ENABLE_EXPERIMENTAL', 'GLM_FORCE_INTRINSICS', 'GLM_FORCE_DEFAULT_ALIGNED_GENTYPES'], flags=_fl, tag='c10_simd_' + _isa)
+    _sb.only = set()
+    for _c in list(P.contracts):
+        # AVX2+FMA: float instantiations only (the translator validation of the AVX dvec4 paths does not pass: ll2c models the 256-bit double kernels
+        # unfused; see C03 not_covered)
+        if _c.build == flat.tag and _c.sig is None and (_isa == 'sse2' or _c.fn.endswith('_f32')):
+            _c2 = _copy.copy(_c)
+            _c2.build = _sb.tag
+            _c2.real = '[GLM_FORCE_INTRINSICS, aligned, %s] %s' % (_isa, _c.real)
+            _sb.only.add(_c.fn)
+            for _u in _c.uses:
+                _sb.only.add(_u)
+            P.contracts.append(_c2)
+
 P.level_text = ('over the reals (machine arithmetic treated as mathematical): the real-valued function computed by the code clang '
                 'extracts from /repo satisfies the defining identities (Leibniz determinant, inverse(M)*M = I = M*inverse(M), '
                 'multiplicativity, ...) for all real inputs with det != 0; decided by z3 nonlinear real arithmetic on the extracted IR')
@@ -90,4 +109,4 @@ P.technique = 'contracts over the reals on mechanically extracted LLVM IR: symbo
 P.design_ref = 'DESIGN.md sections 5 and 6 C10'
 P.assumptions = ['machine arithmetic treated as mathematical (IEEE float/double identified with the reals)',
                  'exactness on small-integer unimodular matrices follows from the real identity plus exactness of float arithmetic on small integers; not a separate obligation']
-P.not_covered = ['rounding bound proportional to the condition number', 'qr_decompose / rq_decompose']
+P.not_covered = ['rounding bound proportional to the condition number', 'qr_decompose / rq_decompose', 'SIMD configurations other than SSE2 and AVX2+FMA (SSE4.1: C03)']
